@@ -12,7 +12,7 @@ def all (j : Json) : Json :=
   let data := pack a b
   let st := stream b a
   let L := obj [("data", toJson data), ("unpack", toJson (unpack data b a.length)),
-                ("getitem", toJson ((List.range a.length).map (fun i => (getitem data b i).getD (2^64)))),
+                ("getitem", toJson ((List.range a.length).map (fun i => (getitemK data b i).getD (2^64)))),
                 ("getlist", optJ ((getitemList data b is).map (fun d => unpack d b is.length))),
                 ("windows", toJson (ws.map (fun w => slidingWindow data b a.length w)))]
   let n := 64 / b
